@@ -33,6 +33,11 @@ def run (op : String) (a : Json) : Option (Except String Json) :=
       let flags : ParserConfig → Json := fun c =>
         Json.arr #[jBool c.failOnUnknownProperties, jBool c.failOnUnknownAttributes, jBool c.failOnConverterWarnings]
       pure <| ok (jObj [("replay", Json.arr #[flags (strictCfg cfg)]), ("after", flags cfg)])
+  | "bind.matchns" => some do
+      -- `XmlVar._match_namespace(qname)` for a var whose `namespaces` tuple is given
+      let nss ← dList dStr (field a "namespaces")
+      let q ← dStr (field a "qname")
+      pure <| ok (jBool (matchNamespace nss q))
   | _ => none
 
 end OpsBindShared
